@@ -301,7 +301,7 @@ func H_C02_quoted(v *V) {
 type c02Cluster struct {
 	A bool   `short:"a"`
 	B bool   `short:"b"`
-	C bool   `short:"c"`
+	C bool   `short:"é"` // a multi-byte member
 	D string `short:"d"`
 }
 
@@ -316,9 +316,9 @@ func c02RunCluster(opts Options, argv []string) (c02Cluster, []string, error) {
 // H_C02_cluster: -abc is interchangeable with -a -b -c (and with a trailing
 // argument-taking member, attached or separate).
 func H_C02_cluster(v *V) {
-	// a cluster of n members drawn from a,b,c (symbolic choice per position)
+	// a cluster of n members drawn from a, b, é (symbolic choice per position)
 	n := v.Shape("n")
-	names := []string{"a", "b", "c"}
+	names := []string{"a", "b", "é"}
 	cluster := "-"
 	var split []string
 	for i := 0; i < n; i++ {
